@@ -108,3 +108,12 @@ spec fn bw_built<V>(st: Seq<State>, n: NfaBuilder<u8, V>, idmap: Seq<u32>) -> bo
     &&& bw_encodes(st, n, idmap)
     &&& forall|x: int| 0 <= x < st.len() ==> st_opos(#[trigger] st[x]) == 0 || slot_used(n, idmap, x)
 }
+
+// termination measure of the placement loop: the set of finished states grows inside 0..n
+proof fn lemma_done_grows(done: Set<int>, sid: int, n: int)
+    requires done.subset_of(vstd::set_lib::set_int_range(0, n)), 0 <= sid < n, !done.contains(sid),
+    ensures done.insert(sid).subset_of(vstd::set_lib::set_int_range(0, n)), done.insert(sid).len() == done.len() + 1, done.insert(sid).len() <= n,
+{
+    vstd::set_lib::lemma_int_range(0, n);
+    vstd::set_lib::lemma_len_subset(done.insert(sid), vstd::set_lib::set_int_range(0, n));
+}
